@@ -84,7 +84,9 @@ func (fx *FuncExec) call(ps *pathState, x *ssa.Call) {
 	}
 	var result Val
 	if con != nil {
+		fx.curBindings = bindings
 		result = fx.callWithContract(ps, x, callee, ckey, con, args, site)
+		fx.curBindings = nil
 	} else {
 		// no contract: results unconstrained, everything reachable from the arguments is havocked
 		name := calleeName(cc, fx.fn)
@@ -276,6 +278,20 @@ func (fx *FuncExec) callWithContract(ps *pathState, x *ssa.Call, callee *ssa.Fun
 		for _, fv := range fx.fn.FreeVars {
 			if _, ok := vars[fv.Name()]; !ok {
 				if v, ok := fx.freeVarValue(fv.Name(), st); ok {
+					vars[fv.Name()] = v
+				}
+			}
+		}
+	}
+	// a closure's contract may name the variables it captures: at the call site they are the cells the
+	// closure was created with (their values before the call; used for the precondition)
+	if callee != fx.fn && len(fx.curBindings) == len(callee.FreeVars) {
+		for i, fv := range callee.FreeVars {
+			if _, ok := vars[fv.Name()]; ok {
+				continue
+			}
+			if p, ok := fx.curBindings[i].(PtrV); ok {
+				if v, ok := st.load(p); ok {
 					vars[fv.Name()] = v
 				}
 			}
